@@ -3,5 +3,6 @@ CONSTANTS
   HalfBank = 32768
   Dev = {}
 INVARIANT Report
+INVARIANT Notes
 POSTCONDITION Consumed
 CHECK_DEADLOCK FALSE
